@@ -210,6 +210,8 @@ type SamCase struct {
 	RefSeq  string
 	Recs    []SamRec
 	PG      bool
+	// layout of the text: the last line without its newline; CRLF line ends
+	NoFinalNewline, CRLF bool
 }
 
 func cigarString(c []CigOp) string {
@@ -233,7 +235,14 @@ func (s *SamCase) Text() string {
 	for _, rec := range s.Recs {
 		sb.WriteString(s.recLine(rec))
 	}
-	return sb.String()
+	text := sb.String()
+	if s.CRLF {
+		text = strings.ReplaceAll(text, "\n", "\r\n")
+	}
+	if s.NoFinalNewline {
+		text = strings.TrimSuffix(strings.TrimSuffix(text, "\n"), "\r")
+	}
+	return text
 }
 
 func (s *SamCase) recLine(rec SamRec) string {
@@ -483,6 +492,7 @@ func genSam(r *Rand, sp samSpec) *SamCase {
 			sc.Recs = append(sc.Recs, genJunk(r, sc, name, q))
 		}
 	}
+	sc.NoFinalNewline, sc.CRLF = r.P(0.06), r.P(0.04)
 	return sc
 }
 
@@ -629,12 +639,17 @@ func minInt(a, b int) int {
 	return b
 }
 
-// wideRuns keeps byte-sized read chunking away from inputs of hundreds of kilobytes (every Read is a
-// visible operation): whole-buffer or line-sized reads only.
+// wideRuns keeps read chunking away from inputs of hundreds of kilobytes (every Read is a visible
+// operation and most chunk modes draw a decision per read): whole-buffer reads only.
 func wideRuns(rcs []RunCfg) {
 	for i := range rcs {
-		if c := rcs[i].Chunk; c == 1 || c == 2 || c == 4 {
-			rcs[i].Chunk = 3 * (i % 2)
-		}
+		rcs[i].Chunk = 0 // (line-sized reads draw one decision per line: a narrowly wrapped wide file has hundreds of thousands)
 	}
+}
+
+// wideLayout is a FASTA layout for very wide alignments: one line per sequence or lines of 60-80 columns.
+func wideLayout(r *Rand) Layout {
+	l := genLayout(r)
+	l.Width = r.PickInt(0, 0, 60, 70, 80)
+	return l
 }
